@@ -144,7 +144,7 @@ Row(fmt) ==
          <<En("version", EN, {"typ"}), En("key_size", WD, {"one", "typ"}),
            Ct("data_offset", C16 \cup {"len"}, 1, 0, "-"), Ct("entry_count", C32, 61, 64, "-")>>
     [] fmt \in {"zbsdiff", "zbsdiff_apply"} -> ZbsRow
-    [] fmt = "local_idx" ->
+    [] fmt \in {"local_idx", "local_idx_ops"} ->
          <<Ct("hdr_block_size", {"zero", "typ", "max"}, 1, 0, "-"), En("version", EN, EN),
            EnD("size_len", {"zero", "typ", "max"}, {"zero", "typ"}, "F02d"),
            EnD("off_len", {"zero", "typ", "max"}, {"zero", "typ"}, "F02d"),
@@ -189,7 +189,7 @@ Row(fmt) ==
            En("wid", {"n:1", "n:2", "n:3"}, {"n:1", "n:2", "n:3"}),
            En("dlen", {"under", "typ", "over"}, {"under", "typ", "over"}),
            En("ext", {"typ", "upper"}, {"typ", "upper"})>>
-    [] fmt = "shmem" ->
+    [] fmt \in {"shmem", "shmem_ops"} ->
          <<En("version", {"zero", "typ", "n:4", "n:5", "max"}, {"typ", "n:4", "n:5"}),
            Ct("max_slots", C32, 8, 8, "F02n"), Ct("direct_max_slots", C32, 8, 8, "F02n")>>
     [] OTHER -> <<>>
@@ -388,6 +388,9 @@ DevExplains(fid, e) ==
     [] fid = "F02x" ->   \* LRU checkpoint: prev links / mru_head are not validated by load_from_disk; later operations index with them
          /\ e.fmt = "lru_ops" /\ Symptom(e) = "panic" /\ e.mc = "index out of bounds: the len is N but the index is N"
          /\ e.loc = "cascette-client-storage/src/lru/mod.rs"
+    [] fid = "F02y" ->   \* local .idx: file_offset_bits above 63 is accepted by the loader, save_index shifts by it
+         /\ e.fmt = "local_idx_ops" /\ Symptom(e) = "panic" /\ e.mc = "attempt to shift left with overflow"
+         /\ e.loc = "cascette-client-storage/src/index/mod.rs" /\ Has(e, "off_bits") /\ ValGT(e.h["off_bits"], 63)
     [] fid = "F02q" ->   \* IndexManager::parse_index_filename sliced a 14-byte name at byte 2 / 10
          /\ e.fmt = "dirnames" /\ Symptom(e) = "panic" /\ e.loc = "cascette-client-storage/src/index/mod.rs"
          /\ e.mc \in {"end byte index N is not a char boundary; it is inside ",
